@@ -2,6 +2,14 @@
    Statements only (model: Model/NegModel.v, executable statements: Spec/NegSpec.v). *)
 Require Import LV.Common.Bytes LV.Gen.Gen_neg LV.Model.NegState LV.Model.NegModel LV.Spec.NegSpec LV.Proofs.NegProofs_C13.
 Local Open Scope Z_scope.
+Require LV.Spec.NegSkeleton LV.Proofs.NegSkeletonProof.
+
+(* translator tie: the handler registrations, time-out macros, call edges and reset assignments found in
+   auth.c / conn.c on this run are the ones the model's tables were written against *)
+Theorem registration_skeleton_as_modelled :
+  LV.Spec.NegSkeleton.skeleton_ok skeleton = true.
+Proof. exact LV.Proofs.NegSkeletonProof.skeleton_matches. Qed.
+Print Assumptions registration_skeleton_as_modelled.
 
 Theorem one_outcome_per_attempt :
   forall ops, check_run ok_outcome init_state ops = true.
